@@ -239,7 +239,7 @@ def _mk_pintersect(n1, n2, closed1, closed2):
 
 
 for (_n1, _n2, _c1, _c2, _tier) in [(2, 2, False, False, "quick"), (3, 2, False, False, "quick"), (2, 3, False, False, "quick"),
-                                    (3, 2, True, False, "quick"), (2, 3, False, True, "thorough"), (3, 3, True, True, "thorough"),
+                                    (3, 2, True, False, "thorough"), (2, 3, False, True, "thorough"), (3, 3, True, True, "thorough"),
                                     (4, 2, True, False, "thorough")]:
     OBLIGATIONS.append(Ob("polygons_intersect_%d%s_%d%s" % (_n1, "c" if _c1 else "o", _n2, "c" if _c2 else "o"),
                           _mk_pintersect(_n1, _n2, _c1, _c2), tier=_tier, family="polygons.intersect",
